@@ -550,7 +550,9 @@ def _compute_sfs(
     if h is None:
         h = 0.5
     xx = dadi.Numerics.default_grid(pts)
-    phi = dadi.PhiManip.phi_1D(xx, theta0=theta, gamma=gamma, h=h, deme_ids=[root_deme])
+    # The first interval is the infinite epoch of the root deme (constant by the demes
+    # specification, never integrated): its size relative to Ne sets the equilibrium.
+    phi = dadi.PhiManip.phi_1D(xx, nu=nu_funcs[0][0], theta0=theta, gamma=gamma, h=h, deme_ids=[root_deme])
     
     # for each set of demographic events and integration epochs, step through
     # integration, apply events, and then reorder populations to align with demes
